@@ -43,7 +43,8 @@ Record param := MkParam { p_name : option str; p_kind : pkind }.
 
 (** the callee's signature type as far as `args_ownership` reads it *)
 Record subr_sig := MkSig {
-  sg_method : bool;                (* hir::Call::is_method_call(): the first non-default parameter is `self` *)
+  sg_method : bool;                (* `implicit_self`: hir::Call::is_method_call() (the first non-default parameter is
+                                      `self`) && !call.obj.ref_t().is_singleton_refinement_type() (not called through the class) *)
   sg_nd : list param;              (* non_default_params *)
   sg_var : list param;             (* var_params (Option) *)
   sg_d : list param;               (* default_params *)
